@@ -255,6 +255,23 @@ def dispatchLd (ld : Option LdSession) (op : String) (args : List Sexp) : Option
               | none => (ld, "none")
               | some db => (ld, ldTags { s with cfg := { s.cfg with tags := db } })
       | _, _ => (ld, "bad-args")
+  | "ld.multipkt", _ =>
+      -- `_send_requests`, multi branch: the packet-level error every embedded reply inherits (stateless)
+      match args with
+      | [r] =>
+          match optBytes? r with
+          | none => (ld, "bad-args")
+          | some raw =>
+              (ld, "ok " ++ (match Drv.multiPacketError (Drv.tagResp raw) with
+                | .error e => "raise:" ++ e.render
+                | .ok t => renderTagErr t) ++ " " ++ toString (Drv.embeddedReplies (Drv.tagResp raw).p.data).length)
+      | _ => (ld, "bad-args")
+  | "ld.pending", some s =>
+      -- replies already waiting in the transport's queue (scripted / stale replies): the next receives return these,
+      -- in order, before anything the target answers
+      match args.mapM Sexp.bytes? with
+      | none => (ld, "bad-args")
+      | some rs => (some { s with w := { s.w with net := { s.w.net with pending := rs.map some } } }, "ok")
   | "ld.drv", some s => (ld, "ok " ++ renderDrv s.w.drv)
   | "ld.tags", some s => (ld, ldTags s)
   | "ld.read", some s => let (s', out) := ldRead s args; (some s', out)
